@@ -8,6 +8,7 @@ import (
 	"strconv"
 	"strings"
 	"unicode"
+	"unicode/utf8"
 
 	"golang.org/x/tools/go/ssa"
 )
@@ -564,6 +565,27 @@ func externals() map[string]ExtFn {
 		m.Assume("text split on " + strconv.Quote(sep) + " is represented by one generic line (every line is treated alike)")
 		rep := s.MapHoles("no:"+sep, func(x string) string { return strings.ReplaceAll(x, sep, " ") })
 		return m.NewSliceOf(strT, rep)
+	}
+	// unicode/utf8 on concrete text (symbolic text stays undecided: the code under analysis reads runes of schema text)
+	e["unicode/utf8.DecodeRuneInString"] = func(m *Machine, a []Value) Value {
+		if c, ok := strArg(m, a[0]).Concrete(); ok {
+			r, n := utf8.DecodeRuneInString(c)
+			return Tuple{int64(r), int64(n)}
+		}
+		panic(m.undecided("utf8.DecodeRuneInString of a symbolic string"))
+	}
+	e["unicode/utf8.DecodeLastRuneInString"] = func(m *Machine, a []Value) Value {
+		if c, ok := strArg(m, a[0]).Concrete(); ok {
+			r, n := utf8.DecodeLastRuneInString(c)
+			return Tuple{int64(r), int64(n)}
+		}
+		panic(m.undecided("utf8.DecodeLastRuneInString of a symbolic string"))
+	}
+	e["unicode/utf8.RuneCountInString"] = func(m *Machine, a []Value) Value {
+		if c, ok := strArg(m, a[0]).Concrete(); ok {
+			return int64(utf8.RuneCountInString(c))
+		}
+		panic(m.undecided("utf8.RuneCountInString of a symbolic string"))
 	}
 	e["strings.Repeat"] = func(m *Machine, a []Value) Value {
 		return Lit(strings.Repeat(concArg(m, a[0], "strings.Repeat"), int(a[1].(int64))))
